@@ -428,12 +428,27 @@ def scenario_sources(g, f, idx, ctx, scen, atom_role, classify, at=None, depth_l
     rds = _rd(g, skip_edge=skip)
 
     def resolve(ff, i, c, depth):
+        ff, i, c = deparam(ff, i, c)
         n = strip_casts(ff, i)
         if depth > depth_limit:
             return {'other:depth'}
         k = classify(ff, n, c)
         if k is not None:
             return {k}
+        if n['k'] == 'call':
+            # a private helper inlined into the graph: what it returns on the paths of the scenario
+            for c_ in g.ctxs:
+                if c_.call is n and c_.parent is c and not c_.lambda_of:
+                    pt_ = g.point_of.get((id(c), n['i']))
+                    reach = {d for (v, d) in rds.get(pt_.id, ())} if pt_ is not None else None
+                    out = set()
+                    for p_ in g.points:
+                        if p_.ctx is c_ and p_.n is not None and p_.n['k'] == 'return' and p_.n.get('e') is not None and p_.n['e'] >= 0:
+                            if reach is not None and any(v == ('ret', id(c_)) for (v, d) in rds.get(pt_.id, ())) and p_.id not in reach:
+                                continue
+                            out |= resolve(c_.f, p_.n['e'], c_, depth + 1)
+                    if out:
+                        return out
         if n['k'] == 'construct' and n.get('copymove') and len(n.get('args', [])) == 1:
             return resolve(ff, n['args'][0], c, depth + 1)
         if n['k'] == 'cond':
@@ -456,3 +471,18 @@ def scenario_sources(g, f, idx, ctx, scen, atom_role, classify, at=None, depth_l
             return out or {'other:undefined'}
         return {'other:' + n['k']}
     return resolve(f, idx, ctx, 0)
+
+
+def deparam(f, idx, ctx):
+    """(func, node idx, ctx) of the expression a by-value/by-reference parameter of an inlined helper stands for: while the node
+    (casts stripped) is such a parameter, continue with the argument in the caller"""
+    for _ in range(6):
+        n = strip_casts(f, idx)
+        if n['k'] == 'ref' and n.get('sk') == 'param' and ctx is not None and ctx.call is not None and not ctx.lambda_of:
+            pi = [k for k, pr in enumerate(f.params) if pr['id'] == n['id']]
+            args = ctx.call.get('args', [])
+            if pi and pi[0] < len(args) and args[pi[0]] is not None and args[pi[0]] >= 0:
+                f, idx, ctx = ctx.caller, args[pi[0]], ctx.parent
+                continue
+        break
+    return f, idx, ctx
